@@ -167,6 +167,22 @@ def run_case(ns, ctx, case):
         viol.append(V(sigbase + ":result-does-not-require-grad", "result of an op on operands requiring grad does not require grad"))
         return {"counters": counters, "viol": viol + mon.drain()}
     gs = {i: gen.upstream(rng, outs[i].shape, case["gclass"]) for i in use}
+    if case["seed"] % 5 == 2:
+        # the caller's first attempt is refused (an upstream gradient of the wrong shape): the refusal leaves nothing behind, the call that
+        # follows is an ordinary first backward
+        try:
+            bad_shape = (2,) + tuple(outs[use[0]].shape) if outs[use[0]].shape else (3,)
+            outs[use[0]].backward(ns.Tensor(np.ones(bad_shape)))
+            counters["wrong_shape_seed_accepted"] = 1
+            mon.drain()
+            return {"counters": counters}            # (accepted: what it means is not defined - nothing further is asserted for this case)
+        except Exception:
+            counters["refused_backward_first"] = 1
+        mon.drain()
+        for t_ in ts:
+            if t_._grad is not None and np.any(t_._grad != 0):
+                viol.append(V(sigbase + ":refused-backward-left-a-gradient", "a backward call that was refused (wrong seed shape) left a non-zero gradient on an operand"))
+                break
     try:
         for i in use:
             outs[i].backward(ns.Tensor(gs[i]))
